@@ -238,8 +238,9 @@ class C10(Prop):
             if kind in ("f", "f2"):
                 tol = self.H_TOL.get(fns[0]) or self.H_TOL.get(R.split_fn(fns[0])[0])
             if a.startswith("exception e") and kind == "f" and R.split_fn(fns[0])[0] in ("sxp", "gam"):
-                # esl_stats_IncompleteGamma threw (eslENOHALT at x = inf / NaN, eslERANGE): the C caller then returns an
-                # unset local; the model's Float instance answers NaN where the hand model of the algorithm yields `none`
+                # esl_stats_IncompleteGamma / esl_stats_LogGamma threw (eslENOHALT at x = inf / NaN, eslERANGE): the harness reports the
+                # exception instead of the value (since 8c29128 / 095f528 the cdf/surv callers return eslNaN there; the pdf callers
+                # still use the unset result); the model's Float instance answers NaN where the hand model of the algorithm yields `none`
                 vb = parse_out(b)
                 if vb is not None and len(vb) == 1 and vb[0] != vb[0]:
                     self.__dict__.setdefault("threw_as_nan", [0])[0] += 1
